@@ -149,6 +149,16 @@ pub open spec fn mask_region(d: RSVD) -> Option<SubWord> {
     }
 }
 
+/// where a region ending at bit `e` of `v` ends in the outermost word: every enclosing sub-word adds its offset
+pub open spec fn nested_end(v: RSV, e: int) -> int
+    decreases v,
+{
+    match v.dt() {
+        RSVD::SubWord { offset, value, .. } => nested_end(*value, e + offset),
+        _ => e,
+    }
+}
+
 //@extract file=src/tc/lift/sub_word.rs path="struct SubWordValue" kind=type
 //@end
 //@extract file=src/tc/lift/sub_word.rs path="impl SubWordValue" kind=header
@@ -185,6 +195,16 @@ pub open spec fn mask_region(d: RSVD) -> Option<SubWord> {
         r matches Some(RSVD::SubWord { offset, size, .. }) ==> mask_region(*data) matches Some(w) && size == w.length && offset >= w.offset,   //@ob C12.arith.sub_word.mask_width_kept_offset_not_wrapped
         r matches Some(d2) ==> d2 is SubWord,                                                     //@ob C12.arith.sub_word.creates_only_sub_word
         r is Some ==> *data is And,                                                               //@ob C12.arith.sub_word.only_on_mask_operation
+        // sub-words nest with offsets relative to the sub-word they are taken from (abi_type_for_impl adds them up):
+        // the region ends inside the word once the offsets of all the sub-words around it are added
+        r matches Some(RSVD::SubWord { offset, size, value }) ==> nested_end(*value, offset + size) <= 256,   //@ob C12.arith.sub_word.nested_region_inside_slot
+//@loop 1
+                invariant
+                    end >= offset + length,
+                    end == usize::MAX || nested_end(**enclosing, end as int) == nested_end(*value, offset + length),   //@ob C12.arith.sub_word.nested_region_inside_slot
+                ensures
+                    !(enclosing.dt() is SubWord),
+                decreases enclosing,
 //@end
 
 // =========================== mapping_access.rs ===========================
